@@ -146,6 +146,20 @@ def judge(ctx, E, a, f, GM, w, lats, hs):
                 ctx.le("int-typed latitude / height give the same gravity as floats", max(abs(oi.value[0] - g), abs(oi.value[1] - oi.value[2])) / g0, 1e-15, {"lat": lat, "h": hi_}, route=r)
         seq = [g] + gh
         ctx.ok("normal gravity decreases with height (0 .. 0.5 % of a)", all(x > y for x, y in zip(seq[:-1], seq[1:])), {"lat": lat, "heights": hs, "g": seq}, route=r)
+    # closely spaced height pairs on both sides of every round height in range (1, 2, 5 x 10^k metres, per-mille fractions of a): the places where a
+    # formula would switch branches.  Gravity must still decrease across each pair, and by no more than the free-air rate allows (no jump)
+    marks = sorted({m_ * 10.0 ** k for k in range(0, 7) for m_ in (1.0, 2.0, 3.0, 5.0)} | {a * x for x in (1e-4, 1e-3, 2e-3, 2.5e-3, 4e-3)})
+    marks = [t for t in marks if t < 0.005 * a * 0.999]
+    for lat in [0.0, 90.0] + [float(x) for x in list(lats)[:2]]:
+        for t in marks:
+            for d in (max(t * 1e-9, a * 1e-10), min(0.5, t * 0.01), min(40.0, t * 0.1)):
+                out = call(lambda: (float(E.normal_gravity(lat, t - d)), float(E.normal_gravity(lat, t + d))))
+                if not ctx.returned(out, clause="no-exception[heights next to a round value]", route=r):
+                    continue
+                g1, g2 = out.value
+                ctx.ok("normal gravity decreases across a close pair of heights around a round height", g1 > g2, {"lat": lat, "heights": [t - d, t + d], "g": [g1, g2]}, route=r)
+                ctx.le("across a close pair of heights gravity changes by at most the free-air rate (4 g/a per metre): no jump",
+                       abs(g1 - g2), 4.0 * max(g1, g2) * 2 * d / a + 1e-14 * g0, {"lat": lat, "heights": [t - d, t + d], "g": [g1, g2]}, route=r)
 
 
 def check_wgs_with_parameters(ctx, a, f, GM, w):
